@@ -37,6 +37,16 @@ func verifDir() string {
 	return "/verif"
 }
 
+// outDir is where evidence and replay files are written: /verif, except for
+// sensitivity runs against a scratch copy of the repository, which must not
+// overwrite the evidence of the real tree.
+func outDir() string {
+	if d := os.Getenv("VERIF_OUT"); d != "" {
+		return d
+	}
+	return verifDir()
+}
+
 type replayFile struct {
 	Property    string              `json:"property"`
 	VerifSeed   uint64              `json:"verif_seed"`
@@ -183,7 +193,7 @@ func worker(args []string) int {
 			if time.Since(time.Unix(0, curStart.Load())) > runTimeout {
 				rf := &replayFile{Property: id, VerifSeed: seed, RunIndex: int(i), RunSeed: runSeed(seed, id, int(i)), Tier: string(tier), Class: "watchdog/run-exceeded-" + runTimeout.String(), Msg: "a single simulated run did not finish within the wall-clock watchdog"}
 				b, _ := json.MarshalIndent(rf, "", " ")
-				path := filepath.Join(verifDir(), "replays", fmt.Sprintf("%s-%d-%d-hang.json", id, seed, i))
+				path := filepath.Join(outDir(), "replays", fmt.Sprintf("%s-%d-%d-hang.json", id, seed, i))
 				_ = os.MkdirAll(filepath.Dir(path), 0o755)
 				_ = os.WriteFile(path, b, 0o644)
 				_ = os.WriteFile(out+".hang", []byte(path), 0o644)
@@ -269,7 +279,7 @@ func worker(args []string) int {
 			rf.Scenario = r2.Scenario
 			rf.Excerpt = r2.Excerpt
 		}
-		path := filepath.Join(verifDir(), "replays", fmt.Sprintf("%s-%d-%d.json", id, seed, i))
+		path := filepath.Join(outDir(), "replays", fmt.Sprintf("%s-%d-%d.json", id, seed, i))
 		_ = os.MkdirAll(filepath.Dir(path), 0o755)
 		b, _ := json.MarshalIndent(rf, "", " ")
 		if err := os.WriteFile(path, b, 0o644); err != nil {
@@ -819,7 +829,7 @@ func master(id string, tier checks.Tier) int {
 		"violations":  reported,
 	}
 	eb, _ := json.MarshalIndent(ev, "", " ")
-	evPath := filepath.Join(verifDir(), "evidence", id+".json")
+	evPath := filepath.Join(outDir(), "evidence", id+".json")
 	_ = os.MkdirAll(filepath.Dir(evPath), 0o755)
 	if err := os.WriteFile(evPath, eb, 0o644); err != nil {
 		fmt.Fprintln(os.Stderr, "cannot write evidence:", err)
